@@ -102,6 +102,20 @@ func (p c02) Run(w *mon.Worker, idx int) mon.Result {
 	if doc.IsScalar() {
 		doc = ref.MapV(ref.KV{K: "a", V: doc})
 	}
+	// a quarter of the float-free documents go through the JSON decoder (it builds the node tree on its own)
+	inFmt := "yaml"
+	{
+		hasFloat := false
+		doc.Walk(nil, func(_ []any, n *ref.V) {
+			if n.K == ref.Float {
+				hasFloat = true
+			}
+		})
+		if !hasFloat && r.IntN(4) == 0 {
+			inFmt = "json"
+		}
+	}
+	evalDoc := func(expr string, d *ref.V) (*ref.V, []*ref.V, error) { return evalDocFmt(expr, d, inFmt) }
 	law := []string{"put", "put", "getput", "putput", "update", "compound", "put", "sharing", "overwrite", "rhsread", "update", "rhsmerge"}[idx%12]
 	opts := gen.PathOpts{AllowCreate: law == "put" || law == "putput", AllowMulti: true, NoRoot: true}
 	opts.MultiIdx = (law == "update" || law == "put") && r.IntN(6) == 0
